@@ -350,8 +350,24 @@ func IndentByParentheses(s string) string {
 
 	var indent int
 	var prev = normal
+	// tokenStart tells whether the next rune begins a new token: only there
+	// does a double quote open a string literal (same rule as the lexer)
+	var tokenStart = true
 	for i := 0; i < len(A); i++ {
 		c := A[i]
+		if c == '"' && tokenStart {
+			// copy the string literal verbatim up to its closing quote
+			appendRune(c, prev, indent)
+			for i++; i < len(A); i++ {
+				sb.WriteRune(A[i])
+				if A[i] == '"' {
+					break
+				}
+			}
+			prev = normal
+			continue
+		}
+		tokenStart = left[c] || right[c] || unicode.IsSpace(c) || c == ';' || c == ','
 		switch {
 		case left[c]:
 			appendLeft(c, prev, indent)
